@@ -7,6 +7,7 @@ pub mod c08;
 pub mod c09;
 pub mod c10;
 pub mod c11;
+pub mod c12;
 pub mod c14;
 pub mod c20;
 pub mod smoke;
@@ -23,6 +24,7 @@ pub fn lookup(id: &str) -> Option<(&'static str, Runner)> {
         "C10" => ("C10", c10::run as Runner),
         "C11" => ("C11", c11::run as Runner),
         "SMOKE" => ("SMOKE", smoke::run as Runner),
+        "C12" => ("C12", c12::run as Runner),
         "C14" => ("C14", c14::run as Runner),
         "C20" => ("C20", c20::run as Runner),
         _ => return None,
